@@ -399,10 +399,9 @@ func (r *runner) runFault(sc *Scenario, tw *twin, k int) {
 				// a later step of the history, after the retried one
 				ps, c2, w2 := r.liveChecks(n, store, &s.After, nil, s.Op != "prune")
 				if c2 != "" && cause == "" {
-					r.reportCause(sc, c2, w2, ps, "", map[string]any{"step": i, "fault": "fail-commit", "k": k})
-				} else {
-					note(ps, "later-"+s.Op+"-")
+					cause, causeWhat = c2, w2
 				}
+				note(ps, "later-"+s.Op+"-")
 			}
 			continue
 		}
@@ -434,9 +433,9 @@ func (r *runner) runFault(sc *Scenario, tw *twin, k int) {
 			w = &s.After
 		}
 		// in-memory filter vs what a restart would build from the surviving disk
-		if mem, err := n.memFilter(); err == nil && s.Op != "prune" {
+		if mem, err := n.memFilter(); err == nil && (s.Op == "store" || s.Op == "revert") {
 			if disk, err := restartFilter(store, sc.Pruning); err == nil {
-				mo, do := sc.U.observeFilter(mem), sc.U.observeFilter(disk)
+				mo, do := sc.U.observeFilter(mem, w.Floor), sc.U.observeFilter(disk, w.Floor)
 				if mo != do {
 					cause = "running-filter-diverges-after-failed-" + s.Op + "-commit"
 					causeWhat = fmt.Sprintf("step %d %s returned the injected commit error; the disk is unchanged (height %d) but the in-memory running event filter "+
@@ -447,10 +446,9 @@ func (r *runner) runFault(sc *Scenario, tw *twin, k int) {
 		}
 		lp, c2, w2 := r.liveChecks(n, store, w, ghost, s.Op != "prune")
 		if c2 != "" && cause == "" {
-			r.reportCause(sc, c2, w2, lp, "", map[string]any{"step": i, "fault": "fail-commit", "k": k})
-		} else {
-			ps = append(ps, lp...)
+			cause, causeWhat = c2, w2
 		}
+		ps = append(ps, lp...)
 		note(ps, "after-failed-"+s.Op+"-commit-")
 		// retry: the failed call must be repeatable on the live node
 		tr.before(n)
@@ -462,10 +460,9 @@ func (r *runner) runFault(sc *Scenario, tw *twin, k int) {
 		}
 		qs, c3, w3 := r.liveChecks(n, store, &s.After, nil, s.Op != "prune")
 		if c3 != "" && cause == "" {
-			r.reportCause(sc, c3, w3, qs, "", map[string]any{"step": i, "fault": "fail-commit", "k": k})
-		} else {
-			note(qs, "after-retried-"+s.Op+"-")
+			cause, causeWhat = c3, w3
 		}
+		note(qs, "after-retried-"+s.Op+"-")
 	}
 	if failedStep < 0 {
 		return
